@@ -33,6 +33,8 @@ SETTINGS = [
     {"TIMEZONE": "UTC", "TO_TIMEZONE": "Asia/Tokyo"}, {"RETURN_AS_TIMEZONE_AWARE": True},
     {"NORMALIZE": False, "SKIP_TOKENS": ["le"]}, {"DATE_ORDER": "DMY", "CACHE_SIZE_LIMIT": 1}, {"BOGUS": 1},
     {"DATE_ORDER": "XYZ"}, {"PREFER_DAY_OF_MONTH": "last"}, {"RETURN_TIME_AS_PERIOD": True},
+    # invalid twins of valid variants above: same names, wrongly typed value with the same str()
+    {"STRICT_PARSING": "True"}, {"CACHE_SIZE_LIMIT": "2"}, {"RETURN_TIME_AS_PERIOD": "True"},
 ]
 NOBASE_SETTINGS = [{"__nobase__": True}, {"__nobase__": True, "PREFER_DATES_FROM": "past"},
                    {"__nobase__": True, "PREFER_DATES_FROM": "future"}, {"__nobase__": True, "DATE_ORDER": "DMY"}]
@@ -53,7 +55,7 @@ def build_pool(tier):
     """Deterministic list of call descriptors (dicts)."""
     P = []
     strings = STRINGS if tier == "thorough" else STRINGS[:22]
-    settings = list(range(len(SETTINGS))) if tier == "thorough" else list(range(0, len(SETTINGS), 1))[:27]
+    settings = list(range(len(SETTINGS)))
     for l, s in strings:
         for si in settings:
             for api in ("parse", "ddp"):
